@@ -21,6 +21,7 @@ func c05(c *eng.Ctx, r *eng.Report) {
 		"R5.4 the state commit (account trie then node database, both error-checked) precedes the head update; " +
 		"R5.5 every removeFromCommonAncestor call is guarded by the chain-weight comparison with the right operand roles (coming vs local, local competitor taken at the fork point); " +
 		"R5.6 transactions are marked executed before the head moves and unmarked on every successful removal, UnMarkExecuted deletes the executed record before it re-adds the transaction, and the pending container takes the re-added transaction unless it is full; R5.8 the header cache that height lookups read is evicted by remove(); R5.7 block verification precedes insertion and checkStates compares state, receipt and tx roots. " +
+		"R5.11 the header cache in front of the height index follows every write of the index: insertBlock adds the inserted block's header to topBlocks under its height on the way to its success return, remove() drops the height, and nobody else fills the cache except the start-up scan (buildCache) — a cache filled on read keeps the typed-nil entry the start-up scan stored for a height that had no block, and a block later inserted at that height is invisible to GetBlockHash/QueryBlock by height and can never be unwound; " +
 		"R5.10 the executed marks of a removed block stay removed: the pool's write batch, which lives as long as the pool, is Reset() after every Write() on every path of MarkExecuted — a batch that keeps its content writes the removed block's marks again with the next block, after UnMarkExecuted deleted them, and verifyBlock then refuses every later block carrying one of those transactions; " +
 		"R5.9 the in-memory head pointer and the head record on disk move together: a function that assigns blockChain.latestBlock writes the head record (heightDB key latestBlockKey) before the assignment or on every path from it to a return, start-up loading excepted; " +
 		"R5.3 (content) an intent mark carries the whole block — what is put under a mark key is the output of MarshalBlock and what recovery hands to remove() is the UnMarshalBlock of what it read — because remove() needs the transactions to roll the executed marks back. " +
@@ -35,6 +36,7 @@ func c05(c *eng.Ctx, r *eng.Report) {
 	c05HeaderCache(c, r)
 	c05HeadRecord(c, r)
 	batchResetAs(c, r, "R5.10", "service", 2)
+	c05HeaderCacheFollowsIndex(c, r)
 	c05MarkContent(c, r)
 	// the second half of R5.6: what UnMarkExecuted does with a removed block's transactions (shared with C17)
 	c17UnmarkAs(c, r, "R5.6")
@@ -963,4 +965,62 @@ func c05MarkContent(c *eng.Ctx, r *eng.Report) {
 		}
 	}
 	r.Check(n >= 4, rule, "mark-content:sites", "", fmt.Sprintf("%d mark writes / recovery removals", n), fmt.Sprintf("only %d mark writes and recovery removals found (2 + 2 expected)", n))
+}
+
+// c05HeaderCacheFollowsIndex: see R5.11.
+func c05HeaderCacheFollowsIndex(c *eng.Ctx, r *eng.Report) {
+	const rule = "R5.11"
+	r.Min(rule, 3)
+	isTop := func(s eng.Site, method string) bool {
+		return strings.HasSuffix(s.Name(), "lru.Cache)."+method) && len(s.Common().Args) > 0 && strings.HasSuffix(eng.Desc(s.Common().Args[0]), ".topBlocks")
+	}
+	allowed := map[string]string{
+		"(*core.blockChain).insertBlock": "the header of the block just written to the height index",
+		"(*core.blockChain).buildCache":  "start-up scan of the top heights",
+	}
+	nAdd := 0
+	for _, fn := range c.PkgFuncs("core") {
+		for _, s := range eng.Sites(fn) {
+			if !isTop(s, "Add") {
+				continue
+			}
+			nAdd++
+			why, ok := allowed[eng.FuncName(fn)]
+			r.Check(ok, rule, "header-cache-writer:"+eng.FuncName(fn), c.Pos(s.Pos()), why, eng.FuncName(fn)+" fills the header cache: outside insertBlock and the start-up scan nothing knows that the height index changed, so an entry made on read (or a typed-nil entry the start-up scan left for an empty height) outlives the insertion of a block at that height")
+		}
+	}
+	ins := c.Func("core", "(*blockChain).insertBlock")
+	if r.Anchor(ins != nil, rule, "core.(*blockChain).insertBlock") {
+		var add ssa.Instruction
+		for _, s := range eng.Sites(ins) {
+			if isTop(s, "Add") && strings.Contains(eng.Desc(s.Common().Args[1]), ".Height") {
+				add = s.Instr
+			}
+		}
+		ok := add != nil
+		where := ""
+		if ok {
+			// the add must lie on every path to updateLastBlock (the head moves only with the cache updated)
+			for _, s := range eng.Sites(ins) {
+				if strings.HasSuffix(s.Name(), "blockChain).updateLastBlock") && !eng.Dominates(add, s.Instr) {
+					ok = false
+					where = c.Pos(s.Pos())
+				}
+			}
+		}
+		r.Check(ok, rule, "header-cache:insert", c.Pos(ins.Pos()), "insertBlock caches the inserted header under its height before the head moves", "insertBlock moves the head (updateLastBlock "+where+") without having put the inserted block's header into topBlocks under its height: after a restart the cache holds a typed-nil entry for every height that had no block, the by-height lookup treats it as a hit, and a block that a reorg puts at such a height cannot be found by height — GetBlockHash/QueryBlock return nothing for a block of the head's chain, and the next heavier fork recurses in addBlockOnChain trying to unwind it")
+	}
+	rm := c.Func("core", "(*blockChain).remove")
+	if r.Anchor(rm != nil, rule, "core.(*blockChain).remove") {
+		has := false
+		for _, s := range eng.Sites(rm) {
+			if isTop(s, "Remove") {
+				has = true
+			}
+		}
+		r.Check(has, rule, "header-cache:remove", c.Pos(rm.Pos()), "remove() drops the removed height from the header cache", "remove() no longer drops the removed height from topBlocks: the by-height lookup keeps answering with the removed block's header")
+	}
+	if nAdd == 0 {
+		r.Fail(rule, "header-cache-writer:none", "", "no topBlocks.Add in package core: the rule has lost its anchor")
+	}
 }
